@@ -245,6 +245,13 @@ def _d11(spec):
 
 
 def extra_monitor(pid, s):
+    from harness import twins
+    if pid == "C08":
+        return twins.mon_C08(s)
+    if pid == "C09":
+        return twins.mon_C09_twin(s)
+    if pid == "C17":
+        return twins.mon_C17_twin(s)
     if pid == "C05":
         return mon_C05(s)
     if pid == "C14":
